@@ -56,8 +56,15 @@ def problem(nsrc, nfreq):
     return survey, model
 
 
+def refined(grid, fx, fy, fz):
+    """Grid with every cell split in fx/fy/fz equal parts (same domain)."""
+    import emg3d
+    h = [np.repeat(grid.h[d]/f, f) for d, f in enumerate((fx, fy, fz))]
+    return emg3d.TensorMesh(h, origin=grid.origin)
+
+
 def run_once(nsrc, nfreq, kind, max_workers, file_dir=None, tqdm=True,
-             prefix=None, repeat=True):
+             prefix=None, repeat=True, variant='same'):
     """One complete run of the real Simulation code.  Returns observations
     (and the scheduler if a virtual pool was used)."""
     import emg3d
@@ -66,10 +73,24 @@ def run_once(nsrc, nfreq, kind, max_workers, file_dir=None, tqdm=True,
     vec = zoo.rng('c11', 'vec').standard_normal(model.shape)
 
     def body():
+        gkw = {'gridding': 'same'}
+        if variant == 'dict':
+            # a different computational grid per source-frequency pair, with
+            # sizes in the order medium, small, large, ... (so that 'largest
+            # first' orderings are neither the identity nor self-inverse)
+            fac = [(2, 1, 1), (1, 1, 1), (1, 2, 2), (2, 2, 1), (1, 1, 2),
+                   (2, 2, 2)]
+            grids, i = {}, 0
+            for sk in survey.sources:
+                grids[sk] = {}
+                for fk in survey.frequencies:
+                    grids[sk][fk] = refined(model.grid, *fac[i % len(fac)])
+                    i += 1
+            gkw = {'gridding': 'dict', 'gridding_opts': grids}
         sim = emg3d.Simulation(
-            survey, model, max_workers=max_workers, gridding='same',
+            survey, model, max_workers=max_workers,
             receiver_interpolation='linear', file_dir=file_dir,
-            tqdm_opts=False, verb=-1)
+            tqdm_opts=False, verb=-1, **gkw)
         with warnings.catch_warnings():
             warnings.simplefilter('ignore')
             sim.compute()
@@ -102,9 +123,10 @@ def run_once(nsrc, nfreq, kind, max_workers, file_dir=None, tqdm=True,
 
 
 @functools.lru_cache(maxsize=None)
-def reference(nsrc, nfreq, kind):
+def reference(nsrc, nfreq, kind, variant='same'):
     """Sequential reference: max_workers=1, in memory, real code."""
-    obs, _ = run_once(nsrc, nfreq, kind, 1, None, True, None)
+    obs, _ = run_once(nsrc, nfreq, kind, 1, None, True, None,
+                      variant=variant)
     return obs
 
 
@@ -150,7 +172,8 @@ def slot_check(nsrc, nfreq):
 def case(c):
     nsrc, nfreq, kind, k = c['nsrc'], c['nfreq'], c['kind'], c['k']
     target = {'forward': 0, 'gradient': 1, 'jvec': 1}[kind]
-    ref = reference(nsrc, nfreq, kind)
+    variant = c.get('variant', 'same')
+    ref = reference(nsrc, nfreq, kind, variant)
     viol = []
     rb = differences({k_: v for k_, v in ref.items() if k_.endswith('2')},
                      ref)
@@ -161,12 +184,14 @@ def case(c):
     nsched = trans = 0
     orders = set()
 
+    # the file directory carries dots in its path (a legal path)
+    fdir = os.path.join(tmp, 'run.v1.d') if tmp else None
+
     def run(prefix):
         if tmp:
-            for f in os.listdir(tmp):
-                os.unlink(os.path.join(tmp, f))
-        obs, sched = run_once(nsrc, nfreq, kind, k, tmp, c['tqdm'], prefix,
-                              repeat=not c.get('full'))
+            shutil.rmtree(fdir, ignore_errors=True)
+        obs, sched = run_once(nsrc, nfreq, kind, k, fdir, c['tqdm'], prefix,
+                              repeat=not c.get('full'), variant=variant)
         return sched, obs
     try:
         if c.get('full'):
@@ -288,6 +313,12 @@ def run(ctx):
             for k in ks:
                 cs.append({'nsrc': nsrc, 'nfreq': nfreq, 'kind': kind,
                            'k': k, 'file': file_, 'tqdm': tq})
+    # per-pair computational grids of different sizes (gridding='dict')
+    for kind in (('forward', 'gradient') if q else KINDS):
+        for file_ in (False, True):
+            for k in ((2, 3) if q else (2, 3, 4, 16)):
+                cs.append({'nsrc': 1, 'nfreq': 3, 'kind': kind, 'k': k,
+                           'file': file_, 'tqdm': True, 'variant': 'dict'})
     # most expensive first for load balance
     cs.sort(key=lambda c: -min(c['k'], nsrc*nfreq))
     ctx.explore('all-orders-of-one-call', FN, cs, engine='E3',
